@@ -60,6 +60,7 @@ type Path struct {
 	naux         int
 	facts        map[int]*Term // term id -> constant implied by the path condition
 	simpMemo     map[int]*Term
+	bounds       map[boundKey]*boundRec
 }
 
 type qentry struct {
@@ -251,6 +252,34 @@ func (ip *Interp) addPC(c *Term) {
 		return
 	}
 	p := ip.path
+	if x, isLower, k, signed, ok := boundOf(c); ok {
+		if p.bounds == nil {
+			p.bounds = map[boundKey]*boundRec{}
+		}
+		key := boundKey{x.ID, signed}
+		b := p.bounds[key]
+		if b == nil {
+			b = &boundRec{w: x.W}
+			p.bounds[key] = b
+		}
+		if isLower {
+			if b.hasLo && lessEq(k, b.lo, x.W, signed) {
+				return // implied by a stronger bound already in the path condition
+			}
+			if b.hasLo {
+				p.PC[b.loIdx] = ip.st.T
+			}
+			b.hasLo, b.lo, b.loIdx = true, k, len(p.PC)
+		} else {
+			if b.hasHi && lessEq(b.hi, k, x.W, signed) {
+				return
+			}
+			if b.hasHi {
+				p.PC[b.hiIdx] = ip.st.T
+			}
+			b.hasHi, b.hi, b.hiIdx = true, k, len(p.PC)
+		}
+	}
 	p.PC = append(p.PC, c)
 	if p.facts == nil {
 		p.facts = map[int]*Term{}
@@ -271,6 +300,133 @@ func (ip *Interp) addPC(c *Term) {
 	}
 	_ = changed
 	p.simpMemo = nil
+}
+
+type boundKey struct {
+	id     int
+	signed bool
+}
+
+type boundRec struct {
+	hasLo, hasHi bool
+	lo, hi       uint64 // compared signed or unsigned per key
+	loIdx, hiIdx int
+	w            int
+}
+
+// boundOf recognises c as "x >= k" (isLower) or "x <= k" for a constant k.
+func boundOf(c *Term) (x *Term, isLower bool, k uint64, signed bool, ok bool) {
+	neg := false
+	if c.Op == OpNot {
+		neg = true
+		c = c.Args[0]
+	}
+	var strict bool
+	switch c.Op {
+	case OpSLt:
+		signed, strict = true, true
+	case OpSLe:
+		signed, strict = true, false
+	case OpULt:
+		signed, strict = false, true
+	case OpULe:
+		signed, strict = false, false
+	default:
+		return
+	}
+	a, b := c.Args[0], c.Args[1]
+	w := a.W
+	var maxV, minV uint64
+	if signed {
+		maxV, minV = mask(w)>>1, (mask(w)>>1)+1
+	} else {
+		maxV, minV = mask(w), 0
+	}
+	switch {
+	case b.IsConst() && !a.IsConst():
+		// a < k / a <= k ; negated: a >= k / a > k
+		x, k = a, b.Val
+		if !neg {
+			isLower = false
+			if strict {
+				if k == minV {
+					return nil, false, 0, signed, false
+				}
+				k = (k - 1) & mask(w)
+			}
+		} else {
+			isLower = true
+			if !strict {
+				if k == maxV {
+					return nil, false, 0, signed, false
+				}
+				k = (k + 1) & mask(w)
+			}
+		}
+		return x, isLower, k, signed, true
+	case a.IsConst() && !b.IsConst():
+		// k < b / k <= b ; negated: b <= k / b < k
+		x, k = b, a.Val
+		if !neg {
+			isLower = true
+			if strict {
+				if k == maxV {
+					return nil, false, 0, signed, false
+				}
+				k = (k + 1) & mask(w)
+			}
+		} else {
+			isLower = false
+			if !strict {
+				if k == minV {
+					return nil, false, 0, signed, false
+				}
+				k = (k - 1) & mask(w)
+			}
+		}
+		return x, isLower, k, signed, true
+	}
+	return
+}
+
+func lessEq(a, b uint64, w int, signed bool) bool {
+	if signed {
+		return sext(a, w) <= sext(b, w)
+	}
+	return a <= b
+}
+
+// decideByBounds answers a bound condition from the recorded bounds.
+func (ip *Interp) decideByBounds(c *Term) (val bool, known bool) {
+	p := ip.path
+	if p == nil || len(p.bounds) == 0 {
+		return false, false
+	}
+	x, isLower, k, signed, ok := boundOf(c)
+	if !ok {
+		return false, false
+	}
+	b := p.bounds[boundKey{x.ID, signed}]
+	if b == nil {
+		return false, false
+	}
+	w := x.W
+	if isLower { // x >= k ?
+		if b.hasLo && lessEq(k, b.lo, w, signed) {
+			return true, true
+		}
+		if b.hasHi && !lessEq(k, b.hi, w, signed) {
+			return false, true
+		}
+	} else { // x <= k ?
+		if b.hasHi && lessEq(b.hi, k, w, signed) {
+			return true, true
+		}
+		if b.hasLo && !lessEq(b.lo, k, w, signed) {
+			return false, true
+		}
+	}
+	return false, false
 }
 
 // simp rewrites t using the constants implied by the path condition.
@@ -412,6 +568,9 @@ func (ip *Interp) branch(c *Term) bool {
 	c = ip.simp(c)
 	if c.IsConst() {
 		return c.Val == 1
+	}
+	if v, known := ip.decideByBounds(c); known {
+		return v
 	}
 	p := ip.path
 	st := ip.st
@@ -611,7 +770,21 @@ func renderObs(label, kind string, vals []uint64, terms []*Term) string {
 }
 
 // assertCond checks a harness assertion.
+// stackOf renders the innermost frames of the call chain (for known-finding
+// site matching and diagnostics).
+func stackOf(fr *frame, max int) string {
+	var parts []string
+	for f := fr; f != nil && len(parts) < max; f = f.caller {
+		parts = append(parts, f.fn.String())
+	}
+	return strings.Join(parts, "<")
+}
+
 func (ip *Interp) assertCond(c *Term, label string) {
+	ip.assertCondAt(c, label, nil)
+}
+
+func (ip *Interp) assertCondAt(c *Term, label string, fr *frame) {
 	p := ip.path
 	st := ip.st
 	if ip.forced() {
@@ -640,7 +813,7 @@ func (ip *Interp) assertCond(c *Term, label string) {
 		r.mu.Lock()
 		r.Stats.AssertSat++
 		r.mu.Unlock()
-		v := Violation{Harness: p.Job.Harness, Params: p.Job.Params, Label: label, Site: "assert:" + label,
+		v := Violation{Harness: p.Job.Harness, Params: p.Job.Params, Label: label, Site: "assert:" + label + " stack=" + stackOf(fr, 10),
 			Draws: ip.drawsUnder(m), Obs: ip.obsUnder(m)}
 		known := ip.run.recordViolation(&v)
 		if !known {
@@ -667,12 +840,19 @@ func (ip *Interp) addPCAssumed(c *Term) {
 	ip.addPC(c)
 }
 
+func harnessMatch(pat, h string) bool {
+	if strings.HasSuffix(pat, "*") {
+		return strings.HasPrefix(h, strings.TrimSuffix(pat, "*"))
+	}
+	return pat == h
+}
+
 // recordViolation stores v; returns true if it matches a known finding.
 func (r *Run) recordViolation(v *Violation) bool {
 	r.mu.Lock()
 	defer r.mu.Unlock()
 	for _, k := range r.Known {
-		if k.Harness == v.Harness && k.Label == v.Label && (k.Site == "" || strings.Contains(v.Site, k.Site)) {
+		if harnessMatch(k.Harness, v.Harness) && k.Label == v.Label && (k.Site == "" || strings.Contains(v.Site, k.Site)) {
 			v.Known = fmt.Sprintf("property=%s %s", k.Property, k.Note)
 			key := v.Known
 			if !r.KnownHit[key] {
